@@ -308,6 +308,69 @@ R.add('L2.3', l23, [{}], desc='temp connection + datagram from its address: prom
               'connect is reported at most once per client'],
       bounds='peer key: right / wrong / key of another pending handshake; 4 datagram types; tokens symbolic')
 
+
+# ------------------------------------------------------------------ L2.4 no promotion without a key
+TYPES24 = ['CLIENT_HELLO', 'SERVER_HELLO', 'CHALLENGE_RESP', 'KEEP_ALIVE', 'DISCONNECT', 'APP', 'APP_FRAGMENT']
+
+
+def l24(count):
+    """a server-side connection that holds no session key yet (fresh, as the server thread creates it for an unknown
+    address) receives one unencrypted, CRC-valid datagram assembled by an attacker: any header type, one or two
+    inner messages of any types, bodies taken from well-formed hellos (any protocol version, attacker key), well-formed
+    challenge responses (any token) or a few arbitrary bytes.  Whatever it is, the peer is not reported connected:
+    promotion needs a challenge response that decrypts under the connection's key."""
+    clock = proto.clock_at(100.0)
+    handler = proto.Handler()
+    ctxt = ctx_mod.ServerContext(handler, newkey('root'))
+    addr = ('cli', 7)
+    sv = conn.ServerClientConnection(ctxt, addr)
+    sv.clock = clock
+    ctxt.temp_connections[addr] = sv
+    atk = newkey('attacker')
+    msgs = []
+    htype = getattr(PacketType, TYPES24[choose(len(TYPES24), 'header_type')])
+    for i in range(count):
+        typ = htype if count == 1 else getattr(PacketType, TYPES24[choose(len(TYPES24), 'type%d' % i)])
+        kind = choose(3, 'body%d' % i)
+        if kind == 0:
+            m = conn.HandshakeClientHelloMessage()
+            m.client_pubkey = atk.getPublicKey()
+            m.client_version = symint('version%d' % i, 0, 65535)
+            body = m.dumpb()
+        elif kind == 1:
+            m = conn.HandshakeClientChallengeResponseMessage()
+            m.token = symint('token%d' % i, 0, 2 ** 31 - 1)
+            body = m.dumpb()
+        else:
+            body, nb = rope.blob('junk%d' % i, 0, 3)
+        msgs.append(conn.PendingMessage(SeqNum(symint('mseq%d' % i, 1, 65535)), typ, body, None, RetryMode.NONE))
+    hdr = PacketHeader.create(False, 100, htype, SeqNum(symint('seq', 1, 65535)), SeqNum(symint('ack', 0, 65535)),
+                              symint('ack_bits', 0, 2 ** 32 - 1))
+    pkt = Packet.create(hdr, msgs)
+    raw = pkt.to_bytes(None)
+    status0 = sv.status
+    try:
+        sv._recv_datagram(PacketHeader.from_bytes(True, raw), raw)
+    except Exception:
+        pass
+    connects = [e for e in handler.events if e[0] == 'connect']
+    check(addr not in ctxt.connections, 'an unauthenticated datagram does not promote the peer to the connection pool')
+    check(connects == [], 'no connect event from an unauthenticated datagram')
+    check(sv.status != Status.CONNECTED, 'the connection is not CONNECTED without a proof of key')
+    if sv.session_key_bytes is None:
+        check(sv.token == 0, 'no token is issued without a key exchange')
+    else:
+        check(And(sv.status == Status.CONNECTING, sv.token != 0), 'a key exists only after a hello of the supported version; the peer still awaits the challenge')
+        check(count == 1 and htype == PacketType.CLIENT_HELLO, 'only the single client hello starts a key exchange')
+
+
+R.add('L2.4', l24, [dict(count=1), dict(count=2)],
+      desc='keyless server-side connection vs one unencrypted attacker datagram (any header type, 1-2 inner messages of any '
+           'type: hello of any version / challenge response with any token / junk): never promoted, no connect event',
+      expect=['an unauthenticated datagram does not promote the peer to the connection pool',
+              'only the single client hello starts a key exchange'],
+      bounds='1 or 2 inner messages; 7 packet types; protocol version, token, sequence numbers, ack fields symbolic; junk <= 3 bytes')
+
 import sys as _sys  # noqa: E402
 for _l in R.lemmas.values():
     if _l.replay is None:
